@@ -347,4 +347,5 @@ def replay(case):
         check_triples(J, specs, 0, len(specs), acc)
     mv.flush()
     want = lab(*specs)
-    return [(fp, e["cases"][0]["what"]) for fp, e in acc.viol.items() if fp.rpartition("|")[2] == want]
+    res = [(fp, e["cases"][0]["what"]) for fp, e in acc.viol.items() if fp.rpartition("|")[2] == want]
+    return minviol.filter_replay(case, res)
